@@ -200,7 +200,68 @@ fn replay_one(e: &Entry, rec: &Value, modes_all: bool, cx: &mut Ctx) -> Value {
             other => cx.fail(&format!("c01.load.{}", tag), format!("{:?}", other)),
         }
     }
+    large_collection(e, rec, &mv, &want, ver, cx);
     obs
+}
+
+/// "empty and LARGE collections": a sequence of fixed-width primitives with n >= 1 elements is blown up by repeating
+/// its elements cyclically to LARGE elements.  The documented encoding is a homomorphism (8-byte length, then the
+/// element encodings in order), so the expected bytes follow from the specification's bytes for the small value.
+/// LARGE * width exceeds the 100 000-byte block of the encrypted container for every width >= 2.
+const LARGE: usize = 60_000;
+fn large_collection(e: &Entry, rec: &Value, mv: &MV, want: &[u8], ver: u32, cx: &mut Ctx) {
+    let t = &rec["t"];
+    if t["k"] != "vec" || !matches!(t["s"].as_str().unwrap_or(""), "Vec" | "VecDeque" | "BoxSlice" | "ArcSlice") {
+        return;
+    }
+    let et = &t["ts"][0];
+    let w = if et["k"] == "p" { prim_width(et["s"].as_str().unwrap()) } else { 0 };
+    let n = mv.vs.len();
+    if w == 0 || n == 0 || want.len() != 8 + n * w {
+        return;
+    }
+    let mut big = mv.clone();
+    big.vs = (0..LARGE).map(|i| mv.vs[i % n].clone()).collect();
+    let mut expect = (LARGE as u64).to_le_bytes().to_vec();
+    for i in 0..LARGE {
+        let k = i % n;
+        expect.extend_from_slice(&want[8 + k * w..8 + (k + 1) * w]);
+    }
+    let mut sink = Tap::new();
+    sink.keep_log = false;
+    if !e.ops.save(&big, ver, Mode::Bare, &mut sink).is_ok() {
+        cx.fail("c01.large.save.bare", "save failed".to_string());
+        return;
+    }
+    if sink.data != expect {
+        let at = sink.data.iter().zip(expect.iter()).position(|(a, b)| a != b).unwrap_or(sink.data.len().min(expect.len()));
+        cx.fail("c02.large.bytes", format!("{} elements: real {} bytes, spec {} bytes, first difference at byte {}", LARGE, sink.data.len(), expect.len(), at));
+    }
+    for mode in [Mode::Bare, Mode::Plain, Mode::Bz, Mode::Crypto] {
+        let tag = format!("{:?}", mode).to_lowercase();
+        let mut sink = Tap::new();
+        sink.keep_log = false;
+        if !e.ops.save(&big, ver, mode, &mut sink).is_ok() {
+            cx.fail(&format!("c01.large.save.{}", tag), "save failed".to_string());
+            continue;
+        }
+        if let Err(why) = container_bytes_ok(&sink.data, ver, mode, &expect) {
+            cx.fail(&format!("c02.large.container.{}", tag), why);
+        }
+        let mut src = TapR::new(&sink.data);
+        src.keep_log = false;
+        match e.ops.load(&mut src, ver, mode) {
+            Outcome::Ok(back) => {
+                if back != big {
+                    cx.fail(&format!("c01.large.roundtrip.{}", tag), format!("{} elements do not come back equal", LARGE));
+                }
+                if mode != Mode::Bz && src.pos != sink.data.len() {
+                    cx.fail(&format!("c01.large.consumed.{}", tag), format!("pos={} len={}", src.pos, sink.data.len()));
+                }
+            }
+            other => cx.fail(&format!("c01.large.load.{}", tag), format!("{:?}", other).chars().take(200).collect()),
+        }
+    }
 }
 
 /// C03 / C18: bytes written by one program version, read by another.
